@@ -39,7 +39,7 @@ func init() {
 		}
 		// Softmax / LogSoftmax
 		sshapes := [][]int{{2}, {2, 2}}
-		gridRows := [][]int{} // filled in once the finite-domain lifting of float terms is in place
+		gridRows := [][]int{{8}, {9}, {17}}
 		rshapes2 := [][]int{{2}, {3}, {2, 2}, {2, 3}, {3, 2}, {2, 2, 2}}
 		if th {
 			rshapes2 = append(rshapes2, []int{1, 2, 3}, []int{2, 1, 2, 2})
@@ -55,6 +55,11 @@ func init() {
 			for _, s := range gridRows {
 				p.Jobs = append(p.Jobs, Job{Harness: "opset13.H_C09_softmax", Case: map[string]interface{}{"op": op, "shape": s, "dtype": "float32", "default": true, "grid": true, "axis": -1}})
 			}
+			// ... and slices along an inner or leading axis, several slices per tensor
+			p.Jobs = append(p.Jobs,
+				Job{Harness: "opset13.H_C09_softmax", Case: map[string]interface{}{"op": op, "shape": []int{2, 3, 2}, "dtype": "float32", "default": false, "grid": true, "axis": 1}},
+				Job{Harness: "opset13.H_C09_softmax", Case: map[string]interface{}{"op": op, "shape": []int{3, 2}, "dtype": "float64", "default": false, "grid": true, "axis": -2}},
+				Job{Harness: "opset13.H_C09_softmax", Case: map[string]interface{}{"op": op, "shape": []int{2, 5}, "dtype": "float32", "default": false, "grid": true, "axis": 1}})
 			for _, s := range rshapes2 {
 				p.Jobs = append(p.Jobs, Job{Harness: "opset13.H_C09_softmax_ring", Case: map[string]interface{}{"op": op, "shape": s, "default": false}})
 				p.Jobs = append(p.Jobs, Job{Harness: "opset13.H_C09_softmax_ring", Case: map[string]interface{}{"op": op, "shape": s, "default": true}})
